@@ -244,7 +244,15 @@ impl<T, Ptr: PointerFamily> MetaSlotMap<T, Ptr> {
             return;
         }
 
+        if self.idx_to_data[idx] != INVALID {
+            // occupied keys are not part of the free list
+            return;
+        }
+
         let entry = self.idx_to_data_free_list[idx];
+        if self.idx_to_data_free_list_head == idx {
+            self.idx_to_data_free_list_head = entry.next;
+        }
         if entry.previous != INVALID {
             self.idx_to_data_free_list[entry.previous].next = entry.next;
         }
